@@ -334,33 +334,33 @@ Fixpoint set_nth {A} (n : nat) (x : A) (l : list A) : list A :=
   | S n', y :: l' => y :: set_nth n' x l'
   end.
 
-(* Request._update_cache_control called by object number i *)
-Definition req_write (i : nat) (p : props) (st : qstate) : qstate :=
+(* Request._update_cache_control called by object number i.  Two repairs of the stale-cache defect exist:
+   [drop] = true: forget the cache entry after every write (the variant in /repo);
+   [drop] = false: record what the cached object wrote (fixes/C12-12 as first proposed). *)
+Definition req_write (drop : bool) (i : nat) (p : props) (st : qstate) : qstate :=
   let t := serialize_cc p in
   mkQ (Some t) (set_nth i p (q_heap st))
-      (match q_cache st with
-       | Some (_, j) => if Nat.eqb i j then Some (t, j) else q_cache st
-       | None => None
-       end).
+      (if drop then None
+       else match q_cache st with
+            | Some (_, j) => if Nat.eqb i j then Some (t, j) else q_cache st
+            | None => None
+            end).
 
 (* Request._cache_control__get: state and the index of the object returned *)
-Definition req_cc_get (st : qstate) : qstate * nat :=
+Definition req_cc_get (drop : bool) (st : qstate) : qstate * nat :=
   let value := match q_env st with Some t => t | None => [] end in
+  let fresh :=
+    let i := length (q_heap st) in
+    let st0 := mkQ (q_env st) (q_heap st ++ [[]]) (q_cache st) in
+    let '(p, st1) := parse_into (req_write drop i) (tokens (S (length value)) value) [] st0 in
+    (mkQ (q_env st1) (set_nth i p (q_heap st1)) (Some (value, i)), i) in
   match q_cache st with
-  | Some (h, j) => if str_eqb h value then (st, j) else
-      let i := length (q_heap st) in
-      let st0 := mkQ (q_env st) (q_heap st ++ [[]]) (q_cache st) in
-      let '(p, st1) := parse_into (req_write i) (tokens (S (length value)) value) [] st0 in
-      (mkQ (q_env st1) (set_nth i p (q_heap st1)) (Some (value, i)), i)
-  | None =>
-      let i := length (q_heap st) in
-      let st0 := mkQ (q_env st) (q_heap st ++ [[]]) (q_cache st) in
-      let '(p, st1) := parse_into (req_write i) (tokens (S (length value)) value) [] st0 in
-      (mkQ (q_env st1) (set_nth i p (q_heap st1)) (Some (value, i)), i)
+  | Some (h, j) => if str_eqb h value then (st, j) else fresh
+  | None => fresh
   end.
 
-Definition req_cc_mutate (i : nat) (f : props -> props) (st : qstate) : qstate :=
-  req_write i (f (nth i (q_heap st) [])) st.
+Definition req_cc_mutate (drop : bool) (i : nat) (f : props -> props) (st : qstate) : qstate :=
+  req_write drop i (f (nth i (q_heap st) [])) st.
 
 Inductive qop :=
 | QGet                                   (* hold = req.cache_control *)
@@ -368,37 +368,37 @@ Inductive qop :=
 | QDelAttr (held : bool) (a : cattr)
 | QPSet (k : str) (v : cval)
 | QPClear
-| QHeader (t : str)                      (* environ["HTTP_CACHE_CONTROL"] = t *)
+| QHeader (t : str)                      (* the environ key is set to t *)
 | QHeaderDel
 | QAssign (v : ccv)
 | QDelete.
 
 (* state + index of the object the caller holds *)
-Definition qcc_step (sth : qstate * option nat) (o : qop) : (qstate * option nat) * option str :=
+Definition qcc_step (drop : bool) (sth : qstate * option nat) (o : qop) : (qstate * option nat) * option str :=
   let '(st, held) := sth in
   let target (h : bool) : qstate * nat :=
     match h, held with
     | true, Some i => (st, i)
-    | _, _ => req_cc_get st
+    | _, _ => req_cc_get drop st
     end in
   match o with
-  | QGet => let '(st1, i) := req_cc_get st in ((st1, Some i), None)
+  | QGet => let '(st1, i) := req_cc_get drop st in ((st1, Some i), None)
   | QSetAttr h a v =>
       let '(st1, i) := target h in
       match attr_set a Request v (nth i (q_heap st1) []) with
       | Raise e => ((st1, held), Some e)
       | Ok None => ((st1, held), None)
-      | Ok (Some f) => ((req_cc_mutate i f st1, held), None)
+      | Ok (Some f) => ((req_cc_mutate drop i f st1, held), None)
       end
   | QDelAttr h a =>
       let '(st1, i) := target h in
       match attr_del a Request (nth i (q_heap st1) []) with
       | Raise e => ((st1, held), Some e)
       | Ok None => ((st1, held), None)
-      | Ok (Some f) => ((req_cc_mutate i f st1, held), None)
+      | Ok (Some f) => ((req_cc_mutate drop i f st1, held), None)
       end
-  | QPSet k v => let '(st1, i) := req_cc_get st in ((req_cc_mutate i (pset k v) st1, held), None)
-  | QPClear => let '(st1, i) := req_cc_get st in ((req_cc_mutate i (fun _ => []) st1, held), None)
+  | QPSet k v => let '(st1, i) := req_cc_get drop st in ((req_cc_mutate drop i (pset k v) st1, held), None)
+  | QPClear => let '(st1, i) := req_cc_get drop st in ((req_cc_mutate drop i (fun _ => []) st1, held), None)
   | QHeader t => ((mkQ (Some t) (q_heap st) (q_cache st), held), None)
   | QHeaderDel => ((mkQ None (q_heap st) (q_cache st), held), None)
   | QAssign v =>
@@ -408,15 +408,15 @@ Definition qcc_step (sth : qstate * option nat) (o : qop) : (qstate * option nat
   end.
 
 Definition ostr (o : option str) : val := match o with Some t => VStr t | None => VNone end.
-Fixpoint qcc_run (ops : list qop) (sth : qstate * option nat) : list val :=
+Fixpoint qcc_run (drop : bool) (ops : list qop) (sth : qstate * option nat) : list val :=
   match ops with
   | [] => []
   | o :: ops' =>
-      let '((st1, held), e) := qcc_step sth o in
+      let '((st1, held), e) := qcc_step drop sth o in
       let before := ostr (q_env st1) in
-      let '(st2, i) := req_cc_get st1 in
+      let '(st2, i) := req_cc_get drop st1 in
       VList [match e with Some x => VErr x | None => VNone end; before; props_val (nth i (q_heap st2) []);
-             ostr (q_env st2)] :: qcc_run ops' (st2, held)
+             ostr (q_env st2)] :: qcc_run drop ops' (st2, held)
   end.
-Definition run_req_cc (init : option str) (ops : list qop) : val :=
-  VList (qcc_run ops (mkQ init [] None, None)).
+Definition run_req_cc (drop : bool) (init : option str) (ops : list qop) : val :=
+  VList (qcc_run drop ops (mkQ init [] None, None)).
